@@ -311,6 +311,9 @@ class Emit:
                 if key in env:
                     return env[key], []
                 raise Untranslatable("len of %s" % flat(recv))
+            key = "m:%s.%s" % (flat(recv), name)
+            if key in env and not args:
+                return env[key], []
             raise Untranslatable("method %s" % name)
         if k == "bin":
             op, a, b = e[1], e[2], e[3]
@@ -615,6 +618,8 @@ def translate(unix_src, ipc_src):
                {"len:data": "data_len"}, pick=1)
     emit_named("recv_follow_end", ["recv_message", "recv"], "end_pos", ["write_pos", "S", "total_size"], {"__S": "S"})
     emit_named("recv_ctl_cap", "new", "cmsg_length", [], {})
+    emit_named("recv_channel_length", ["recv_message", "recv"], "channel_length", ["cmsg_length", "cmsg_len"],
+               {"m:cmsg.cmsg_len": "cmsg_len"})
 
     def emit_cond(defname, fn_name, after_kw, params, env_extra):
         # the condition of `if <cond> {` that follows the comment-free token `after_kw` sequence
